@@ -521,6 +521,42 @@ def run(prog: Program) -> Results:
                             f"{target.key} accepts a previous node that is itself a comment and parse_delimited_sequence has no latch: in "
                             f"`[\\n  a\\n  /* x */ /* y */\\n  b\\n]` the second comment is attached to `a` and the first to `b` "
                             f"(`a /* y */\\n/* x */\\n  b`): the two comments swap places")
+    # ---------------------------------------------------------------- R-C03-12 a one-comment slot is not overwritten in a loop
+    r12 = res.rule("R-C03-12", "every comment converted in a parser loop is kept: `x = Comment.from_cst(node)` inside a loop is "
+                   "consumed in the same iteration (appended, or handed to a call) or assigned only while the slot is still empty — "
+                   "a scalar slot that is simply reassigned keeps the last comment and loses the others", floor=8)
+    for f in prog.all_functions():
+        pm12 = None
+        for n in walk_no_nested(f.node):
+            if not (isinstance(n, ast.Assign) and isinstance(n.value, ast.Call) and norm(n.value.func).endswith("Comment.from_cst")
+                    and isinstance(n.targets[0], (ast.Name, ast.Attribute))):
+                continue
+            pm12 = pm12 or parent_map(f.node)
+            cur, loop = n, None
+            while cur in pm12:
+                cur = pm12[cur]
+                if isinstance(cur, (ast.For, ast.While)):
+                    loop = cur
+                    break
+            if loop is None:
+                continue
+            r12.instances += 1
+            tgt = norm(n.targets[0])
+            consumed = any(isinstance(x, ast.Call) and any(norm(a) == tgt for a in list(x.args) + [k.value for k in x.keywords])
+                           and not norm(x.func).endswith("Comment.from_cst") for x in ast.walk(loop))
+            fcfg = CFG(f.node)
+            from sa.cfg import edges_establishing as _ee12
+            empty = _ee12(fcfg, lambda a, t, _t=tgt: (norm(a) == f"{_t} is None" and t is True) or (norm(a) == f"{_t} is not None" and t is False)
+                          or (norm(a) == _t and t is False))
+            node = fcfg.containing(n)
+            guarded = bool(empty) and node is not None and fcfg.all_paths_pass(node, cut_edges=[(x, l) for x, l in empty if any(x.ast is y for y in ast.walk(loop))])
+            ok = consumed or guarded
+            r12.ob(ok, {"site": f.key, "assignment": norm(n)[:60], "consumed_in_iteration": consumed, "only_while_empty": guarded})
+            if not ok:
+                res.add("R-C03-12", (f.key, "one-comment slot reassigned in a loop", alpha(n.targets[0], f.node)), f.loc(n),
+                        f"{f.key}: `{norm(n)[:60]}` runs for every matching comment of the loop and the slot holds one: in "
+                        f"`x: /* a */ /* b */ y` both comments follow the colon on its line, the second overwrites the first, and "
+                        f"`/* a */` is gone from the output")
     res.tables.append(f"sa/tables/grammar.py: {len(PRODUCTIONS)} productions, {len(GENERIC_CLASSES)} generic walkers")
     res.assumptions = ["relative order of two comments routed into different slots of the same gap is a value-level fact and is not decided"]
     return res
